@@ -23,8 +23,19 @@ class VRoles:
         self.per_source, self.cutoff = self.per_source[0], self.cutoff[0]
 
     def methods(self, facts):
-        return [b for b in facts.bodies.values() if b.crate == CR and not b.d['promoted'] and b.kind == 'method' and '::NodeVersions::' in b.name
-                and not b.name.startswith('<')]
+        out = [b for b in facts.bodies.values() if b.crate == CR and not b.d['promoted'] and b.kind == 'method' and '::NodeVersions::' in b.name
+               and not b.name.startswith('<')]
+        # ... and the PROVIDED methods of private traits of the crate that NodeVersions implements (a predicate written once over a
+        # required accessor): they are interpreted with the version vectors as `self`, the required method resolving to NodeVersions' impl
+        traits = set()
+        for im in facts.impls:
+            if im.get('trait_def') and 'NodeVersions' in str(im.get('self', '')) and strip_generics(im['trait_def']).startswith(CR + '::'):
+                traits.add(strip_generics(im['trait_def']))
+        for b in facts.bodies.values():
+            if b.crate == CR and not b.d['promoted'] and b.kind in ('method', 'fn') and not b.name.startswith('<') and b.cfg is not None \
+                    and b.name.rsplit('::', 1)[0] in traits and b not in out:
+                out.append(b)
+        return out
 
     def make(self, stamps, cutoff=None):
         """stamps: list (per source) of {node: sym}"""
@@ -53,7 +64,7 @@ def ts_algebra(interp, name, args, t, body):
             return ('dur', a0[1])
         if seg == 'new':
             d, c, n = args
-            if d[0] == 'dur0':
+            if d[0] == 'dur0' or (d[0] == 'const' and str(d[1]).endswith('Duration::ZERO')):
                 return ('ts', 'zero')
             if d[0] == 'dur-f' and c[0] == 'ctr' and c[1] == d[1]:
                 interp.trace.append(('forgiveness', d[2]))
@@ -61,7 +72,10 @@ def ts_algebra(interp, name, args, t, body):
             if d[0] == 'dur' and c[0] == 'ctr' and c[1] == d[1]:
                 return ('ts', d[1])
             raise Unmodelled('HLCTimestamp::new(%s, %s, ..)' % (d[0], c[0]))
-    if name == 'core::time::Duration::from_secs' and args[0][0] == 'int' and args[0][1] == 0:
+    if name in ('core::time::Duration::from_secs', 'core::time::Duration::from_millis', 'core::time::Duration::from_micros', 'core::time::Duration::from_nanos') \
+            and args[0][0] == 'int' and args[0][1] == 0:
+        return ('dur0',)
+    if name == 'core::time::Duration::new' and len(args) == 2 and all(a[0] == 'int' and a[1] == 0 for a in args):
         return ('dur0',)
     if name in ('core::time::Duration::saturating_sub',) and args[0][0] == 'dur':
         c = args[1]
